@@ -410,6 +410,41 @@ mm 0{}", "+0".repeat(n)));
     add("macro-unclosed", ".macro m\nnop\nnop".into());
     add("macro-nested-definition", ".macro a\n.macro b\nnop\n.endm\n.endm\na\nb".into());
     add("macro-endm-only", ".endm\n.endmacro".into());
+    // absurd sizes under every kind of device (no EEPROM at all, tiny, large) and through every way
+    // of reaching them: the answer is an error value, not gigabytes of padding
+    for dev in ["ATtiny10", "ATtiny11", "ATtiny13", "ATtiny20", "ATmega8", "ATmega2560", "AT94K"] {
+        for (way, body) in [
+            ("eseg-byte", ".eseg\n.byte {}\n.db 1"),
+            ("eseg-org", ".eseg\n.org {}\n.db 1"),
+            ("eseg-org-no-item", ".eseg\n.org {}\n.cseg\nnop"),
+            ("dseg-byte", ".dseg\n.byte {}\n.byte 1"),
+            ("dseg-org", ".dseg\n.org {}\n.byte 1"),
+            ("cseg-org", ".org {}\nnop"),
+            ("cseg-org-in-macro", ".macro far\n.org @0\nnop\n.endm\nfar {}"),
+            ("eseg-byte-in-macro", ".macro big\n.eseg\n.byte @0\n.db 1\n.cseg\n.endm\nbig {}"),
+            ("device-after-content", ".eseg\n.byte {}\n.db 1\n.cseg"),
+        ] {
+            for size in ["0x4000000", "0x40000000", "0xfffffff0"] {
+                let text = body.replace("{}", size);
+                let src = if way == "device-after-content" { format!("{}\n.device {}", text, dev) } else { format!(".device {}\n{}", dev, text) };
+                add(&format!("absurd-size:{}:{}:{}", dev, way, size), src);
+            }
+        }
+    }
+    // one name defined by two different kinds of definition (and names the language has taken already),
+    // in both orders: whatever the verdict, it is a value
+    {
+        let defs: [(&str, &str); 8] = [("label", "{}: nop"), ("equ", ".equ {} = 1"), ("set", ".set {} = 2"), ("def", ".def {} = r16"), ("define", ".define {}"), ("macro", ".macro {}\nnop\n.endm"), ("data-label", ".dseg\n{}: .byte 1\n.cseg"), ("undef", ".undef {}")];
+        for (ka, ta) in defs.iter() {
+            for (kb, tb) in defs.iter() {
+                let n = "clash_n";
+                add(&format!("name-clash:{}-then-{}", ka, kb), format!("{}\n{}\nldi r17, low({})\nmov {}, r1\n{}\n", ta.replace("{}", n), tb.replace("{}", &n.to_uppercase()), n, n, n));
+            }
+            for reserved in ["pc", "PC", "r16", "R31", "x", "Z", "low", "exp2", "nop", "ldi", "db", "if", "endm", "device"] {
+                add(&format!("name-clash:{}-of-reserved-{}", ka, reserved), format!("nop\n{}\nldi r17, low({})\n.dw {}\n", ta.replace("{}", reserved), reserved, reserved));
+            }
+        }
+    }
     for (tag, s) in [
         ("org-huge-code", ".org 0x7fffffff\nnop"),
         ("org-huge-code-2", ".cseg\n.org 0xffffffff\nnop\nnop"),
